@@ -92,11 +92,14 @@ func c11Patches() []c11Patch {
 		{"delete-blank", &model.Change{Kind: "expr", Meta: xm, Imports: []model.Import{imp("-", "_", "old/p")}, Lines: model.L("-foo(x)", "+bar(x)")}, `_ "old/p"`, "p", "foo(1)"},
 		{"delete-dot", &model.Change{Kind: "expr", Meta: xm, Imports: []model.Import{imp("-", ".", "old/p")}, Lines: model.L("-Foo(x)", "+foo(x)")}, `. "old/p"`, "p", "Foo(1)"},
 		{"replace-blank", &model.Change{Kind: "expr", Meta: xm, Imports: []model.Import{imp("-", "_", "old/p"), imp("+", "_", "new/p")}, Lines: model.L("-foo(x)", "+bar(x)")}, `_ "old/p"`, "p", "foo(1)"},
+		// a declaration pattern that also adds an import (the recorded position of the matched declaration must survive the insertion)
+		{"add-on-decl-pattern", &model.Change{Kind: "decl", Imports: []model.Import{imp("+", "", "new/q")}, Lines: model.L("-func site() {", "+func site2() {", " DOTS_1", " }")}, "", "", "foo(1)"},
+		{"replace-on-decl-pattern", &model.Change{Kind: "decl", Imports: []model.Import{imp("-", "", "old/p"), imp("+", "", "new/q")}, Lines: model.L("-func site() {", "+func site2() {", " DOTS_1", " }")}, `"old/p"`, "p", "foo(1)"},
 		{"add-v1-next-to-api", &model.Change{Kind: "expr", Meta: xm, Imports: []model.Import{imp(" ", "", "legacy/api"), imp("+", "", "new/api/v1")}, Lines: model.L("-api.Foo(x)", "+v1.Foo(x)")}, `"legacy/api"`, "api", "api.Foo(1)"},
 	}
 }
 
-var c11Others = []string{`nn "x/named"`, `_ "x/blank"`, `. "x/dot"`, `"x/plain"`, `"x/commented" // why it is here`}
+var c11Others = []string{`nn "x/named"`, `_ "x/blank"`, `. "x/dot"`, `"x/plain"`, `"x/commented" // why it is here`, `"C"`}
 
 func c11Gen(tier string, emit func(any)) {
 	maxSub := c11Subset(tier)
